@@ -43,7 +43,8 @@ ASSUMPTIONS = ['roman_standard is structural: thousands prefix by induction, the
                'generated documents keep lists balanced and at most 4 deep, do not manipulate enumi..enumiv explicitly, use \\nonumber only inside eqnarray rows, '
                'place a unit heading right after \\appendix, keep counters non-negative, and number theorems only within units that print a number',
                'sectioning deeper than sec-num-depth steps its counter in plasTeX (LaTeX does not); only the printed numbers are compared with the LaTeX oracle']
-RULE = ('num: exhaustive ranges; ctr/fmt: seeded random histories; doc8: seeded random documents (~15% malformed: undefined counters, 5-deep lists); '
+RULE = ('num: exhaustive ranges; ctr/fmt: seeded random histories (fmt: counter values incl. 10, 20, 100, 1000 and multiples of 10; judged against the executable '
+        'nested-substitution oracle substEval); doc8: seeded random documents (explicit values on the digit boundaries 9/10, 99/100 ..., 8% long documents of 10-24 units)  (~15% malformed: undefined counters, 5-deep lists); '
         'non-trivial = spec defined and (num: always; ctr: at least one reset edge and one step; doc8: at least 3 printed numbers); distinct = distinct request line')
 EXHAUSTIVE = {'quick': 'num stream: Roman and roman for every value 1..4999, Alph/alph 1..26 (plus -60..60 for the model)',
               'thorough': 'num stream: Roman and roman for every value -100..5100, Alph/alph/arabic/fnsymbol -60..60'}
@@ -223,7 +224,9 @@ def lit_word(s):
 def gen_fmt(rng):
     k = rng.randint(1, 4)
     names = NAMES[:k]
-    vals = {n: rng.choice([0, 0, 1, 2, 3, 7, 12, 26, rng.randint(-3, 60)]) for n in names}
+    # values on both sides of every digit boundary, values ending in 0 and multi-digit values ("10.1", "100.20")
+    vals = {n: rng.choice([0, 0, 1, 2, 3, 7, 9, 10, 12, 20, 26, 30, 99, 100, 101, 110, 1000, rng.randint(-3, 60),
+                           10 * rng.randint(1, 40)]) for n in names}
     macros = {}
     order = list(names)
     rng.shuffle(order)
@@ -262,12 +265,16 @@ LEVELS = {'part': -1, 'chapter': 0, 'section': 1, 'subsection': 2, 'subsubsectio
 ENV_LEVEL, CMD_LEVEL = 201, 1001
 
 
+BOUNDARY_VALUES = [9, 10, 19, 20, 29, 30, 49, 50, 89, 90, 99, 100, 101, 109, 110, 199, 200, 999, 1000]
+
+
 class DocGen:
     """builds LaTeX source and the event list side by side"""
 
     def __init__(self, rng, cls, snd, malformed):
         self.rng, self.cls, self.snd, self.malformed = rng, cls, snd, malformed
         self.src, self.ev = [], []
+        self.marks = []           # (len(src), len(ev)) at the start of every top-level block of the body
         self.thms = []            # (env, counter or '' )
         self.user = []            # user counters
         self.appendix = False
@@ -321,10 +328,12 @@ class DocGen:
         c = rng.choice(pool)
         r = rng.random()
         if r < 0.4:
-            v = rng.randint(0, 12)
+            # small values, and values around / on the digit boundaries (9, 10, 19, 20, 99, 100 ...): the printed
+            # numbers then contain zeros and several digits ("10.1", "100.20")
+            v = rng.randint(0, 12) if rng.random() < 0.6 else rng.choice(BOUNDARY_VALUES)
             self.src.append('\\setcounter{%s}{%d}' % (c, v)); self.ev.append('T:%s:%d' % (c, v))
         elif r < 0.65:
-            v = rng.randint(0, 3)
+            v = rng.randint(0, 3) if rng.random() < 0.8 else rng.choice([7, 8, 9, 10, 90, 100])
             self.src.append('\\addtocounter{%s}{%d}' % (c, v)); self.ev.append('A:%s:%d' % (c, v))
         else:
             self.src.append('\\%s{%s}' % (rng.choice(['stepcounter', 'refstepcounter']), c)); self.ev.append('S:%s' % c)
@@ -406,10 +415,24 @@ class DocGen:
         self.src.append('\\%s%s%s{%s}' % (name, '*' if star else '', opt, self.text()))
         self.ev.append('C:%s:%s:%d:%d' % (name, name, 1 if star else 0, LEVELS[name]))
 
+    def long_body(self, n):
+        rng = self.rng
+        top = rng.choice([self.unit, self.unit, 'section'])
+        for i in range(n):
+            self.marks.append((len(self.src), len(self.ev)))
+            self.heading(top, star=False)
+            for _ in range(rng.randint(1, 2)):
+                r = rng.random()
+                if r < 0.45: self.float_()
+                elif r < 0.7: self.equation()
+                elif r < 0.85: self.theorem(allow_list=False)
+                else: self.heading('subsection' if top != 'subsection' else 'subsubsection', star=False)
+
     def body(self, n):
         rng = self.rng
         app_at = rng.randrange(n) if rng.random() < 0.35 and n > 3 else -1
         for i in range(n):
+            self.marks.append((len(self.src), len(self.ev)))
             if i == app_at and not self.appendix:
                 self.appendix = True
                 self.src.append('\\appendix')
@@ -428,17 +451,33 @@ class DocGen:
                 self.src.append(self.text() + '\n\n')
 
 
+def doc_blocks(g, n_pre_ev):
+    """the top-level blocks of the body as [source, event words] pairs (for shrinking)"""
+    marks = g.marks + [(len(g.src), len(g.ev))]
+    return [[''.join(g.src[a:c]), g.ev[b:d]] for (a, b), (c, d) in zip(marks, marks[1:])]
+
+
+def doc_case_parts(cls, snd, pre, pre_ev, blocks, malformed):
+    line = '%s %d %s' % (cls, snd, ' '.join(pre_ev + [w for _, evs in blocks for w in evs]))
+    meta = {'kind': 'doc', 'cls': cls, 'snd': snd, 'pre': pre, 'pre_ev': pre_ev, 'blocks': blocks,
+            'body': ''.join(src for src, _ in blocks), 'malformed': malformed}
+    return line, meta
+
+
 def gen_doc(rng, tier):
     cls = rng.choice(['article', 'book'])
     snd = rng.choice([2, 2, 2, 1, 3, 0])
     malformed = rng.random() < 0.15
     g = DocGen(rng, cls, snd, malformed)
     g.preamble()
-    pre, g.src = g.src, []
-    g.body(rng.randint(2, 9 if tier == 'quick' else 16))
-    line = '%s %d %s' % (cls, snd, ' '.join(g.ev))
-    meta = {'kind': 'doc', 'cls': cls, 'snd': snd, 'pre': ''.join(pre), 'body': ''.join(g.src), 'malformed': malformed}
-    return line, meta
+    pre, pre_ev = ''.join(g.src), list(g.ev)
+    g.src, g.ev = [], []
+    if rng.random() < 0.08:
+        # a long document: the counters grow past 10, 20 ... by stepping alone (numbers with several digits and zeros)
+        g.long_body(rng.randint(10, 24))
+    else:
+        g.body(rng.randint(2, 9 if tier == 'quick' else 16))
+    return doc_case_parts(cls, snd, pre, pre_ev, doc_blocks(g, len(pre_ev)), malformed)
 
 
 def num_cases(tier):
@@ -458,14 +497,15 @@ def generate(ctx):
     rng = ctx.rng
     yield from num_cases(ctx.tier)
     n = 1500 if ctx.tier == 'quick' else 30000
+    # documents first: when something breaks, the reported witness is a document if there is one
+    for _ in range(700 if ctx.tier == 'quick' else 12000):
+        line, meta = gen_doc(rng, ctx.tier)
+        yield Case('doc8', line, meta)
     for _ in range(n):
         yield Case('ctr', gen_ctr(rng), {'kind': 'ctr'})
     for _ in range(n // 2):
         line, meta = gen_fmt(rng)
         yield Case('fmt', line, meta)
-    for _ in range(700 if ctx.tier == 'quick' else 12000):
-        line, meta = gen_doc(rng, ctx.tier)
-        yield Case('doc8', line, meta)
 
 
 def _doc_case(cls, snd, pre, body, events):
@@ -486,6 +526,10 @@ def corpus():
         # \item[label] does not count
         _doc_case('article', 2, '', '\\begin{enumerate}\\item a \\item[x] b \\item c\\end{enumerate}',
                   'BL I:item:0 I:item:1 I:item:0 EL'),
+        # trimLeft strips a leading "0." only: chapter 10 gives figure 10.1, chapter 100 table 100.1
+        _doc_case('book', 2, '', '\\setcounter{chapter}{9}\\chapter{X}\\begin{figure}\\caption{a}\\end{figure}'
+                  '\\setcounter{chapter}{99}\\chapter{Y}\\begin{table}\\caption{b}\\end{table}',
+                  'T:chapter:9 C:chapter:chapter:0:0 C:caption:figure:0:1001 T:chapter:99 C:chapter:chapter:0:0 C:caption:table:0:1001'),
         # \part is numbered in Roman
         _doc_case('book', 2, '', '\\part{P}\\chapter{A}\\part{Q}\\chapter{B}',
                   'C:part:part:0:-1 C:chapter:chapter:0:0 C:part:part:0:-1 C:chapter:chapter:0:0'),
@@ -664,7 +708,9 @@ def judge(o):
 # ---------------------------------------------------------------- shrinking and search
 
 def shrink(ctx, o, evaluate):
-    """ctr: drop operations; doc8 is reported as generated (source and events must stay aligned)"""
+    """ctr: drop operations; doc8: drop top-level blocks of the body (source and events stay aligned)"""
+    if o.case.stream == 'doc8' and o.case.meta.get('blocks'):
+        return shrink_doc(o, evaluate)
     if o.case.stream != 'ctr':
         return o
     best = o
@@ -677,6 +723,24 @@ def shrink(ctx, o, evaluate):
             if not r.prop_ok:
                 best, improved = r, True
                 break
+    return best
+
+
+def shrink_doc(o, evaluate):
+    best = o
+    for _ in range(60):
+        m = best.case.meta
+        blocks = m['blocks']
+        if len(blocks) <= 1:
+            break
+        cands = []
+        for i in range(len(blocks)):
+            line, meta = doc_case_parts(m['cls'], m['snd'], m['pre'], m['pre_ev'], blocks[:i] + blocks[i + 1:], m['malformed'])
+            cands.append(Case('doc8', line, meta, 'shrink'))
+        nxt = next((r for r in evaluate(cands) if not r.prop_ok), None)
+        if nxt is None:
+            break
+        best = nxt
     return best
 
 
